@@ -83,7 +83,7 @@ Print Assumptions C09_genprism_planar_face_partial.
 (** assembly of a non-degenerate GenPrism from faces that agree at p (twisted: always;
     planar: parallel edges); missing: the branch selection by soft_equal on the normals *)
 Theorem C09_genprism_surfaces_iff_inside_partial : forall tol hz lo hi p,
-  0 < hz -> length lo = length hi ->
+  0 < hz -> List.length lo = List.length hi ->
   on_any [(BOut, planeZ (- hz)); (BIn, planeZ hz)] p = false ->
   Forall4 (face_agrees tol hz p) lo (rot1 lo) hi (rot1 hi) ->
   (all_hold (genprism_surfaces tol hz lo hi DegNone) p = true <-> inside_genprism hz lo hi p = true).
